@@ -612,7 +612,10 @@ def fam_c18_logos(R, n):
         gid += 1
     # single-valued items given twice with different values: both orders must end the same way
     for (a, b) in [('crate = logos', 'crate = ::logos'), ('crate = logos', 'crate = not_a_crate'), ('extras = MyExtras', 'extras = u8'), ('error = MyErr', 'error = OtherErr'),
-                   ('utf8 = true', 'utf8 = false'), ('error = MyErr', 'error(OtherErr)'), ('subpattern ab = "a"', 'subpattern ab = "b"')]:
+                   ('utf8 = true', 'utf8 = false'), ('error = MyErr', 'error(OtherErr)'), ('subpattern ab = "a"', 'subpattern ab = "b"'),
+                   # one of the two spells out the default value
+                   ('extras = ()', 'extras = MyExtras'), ('extras = ()', 'extras = ()'), ('error = ()', 'error = MyErr'), ('utf8 = true', 'utf8 = true'),
+                   ('crate = ::logos', 'crate = ::logos'), ('crate = ::logos', 'crate = not_a_crate')]:
         for perm in ((a, b), (b, a)):
             src = enum(['#[logos(%s)]' % ', '.join(perm)], ['#[regex("[a-z]+")] Id,', '#[token("=")] Eq,'])
             out.append(dict(family='c18-logos-dups', src=src, meta=dict(group=gid, perm=list(perm), exact=True)))
@@ -764,6 +767,21 @@ def fam_c17(R, n):
               '#[token("c", |_| 0u32)]\n    C(pub(crate) u32)' + ('' if k % 3 == 0 else ',')]
         src = '\n'.join(attrs + [head + (' ' + where if where and '\n' not in where else '')] + ([where] if '\n' in where else []) + ['{'] + ['    ' + v for v in vs] + ['}'])
         out.append(dict(family='c17-headers', src=src, meta={}))
+    # field types that mention the parameters of the enum: the derive rewrites such types for its own use (lifetimes to the
+    # source lifetime, type parameters to their concrete types); the enum that comes out must keep them as written
+    for k, (head, items, fields) in enumerate([
+            ("pub enum Q0<'a>", [], ["&'a str", "Option<&'a str>"]),
+            ("pub enum Q1<'a>", ["lifetime = 'a"], ["&'a str", "(&'a str, u8)"]),
+            ("pub enum Q2<'x>", [], ["&'x [u8]", "core::marker::PhantomData<&'x ()>"]),
+            ('pub enum Q3<T>', ['type T = u32'], ['T', 'Vec<T>']),
+            ("pub enum Q4<'a, T>", ["type T = &'a str"], ['T', "&'a T", 'Option<[T; 2]>']),
+            ("pub enum Q5<'a, T, U>", ["lifetime = 'a", 'type T = u8', 'type U = Vec<T>'], ['U', "(T, &'a U)", 'fn(T) -> U']),
+            ('pub enum Q6', [], ['&str', "&'static str", 'Box<dyn Fn(&str) -> u8>']),
+            ("pub enum Q7<'s>", [], ["&'s str", "std::borrow::Cow<'s, str>"])]):
+        attrs = ['#[derive(Debug, Logos)]'] + (['#[logos(%s)]' % ', '.join(items)] if items else [])
+        vs = ['#[token("a")]\n    A,'] + ['#[regex("%s+", |_| todo!())]\n    F%d(%s),' % ('bcdefg'[j], j, f) for j, f in enumerate(fields)]
+        src = '\n'.join(attrs + [head + ' {'] + ['    ' + v for v in vs] + ['}'])
+        out.append(dict(family='c17-field-types', src=src, meta={}))
     # an output that contains U+FFFD itself (what a lossy decoder substitutes for bytes that are not UTF-8)
     out.append(dict(family='c17-replacement-char', meta={}, src='#[derive(Debug, Logos)]\n/// a replacement character: \ufffd (twice: \ufffd)\npub enum R0 {\n    #[token("a")]\n    A,\n    #[regex("b+")]\n    B,\n}'))
     return out
@@ -858,6 +876,21 @@ def fam_c19(R, n_random):
         'type item referring to another, acyclic (resource exhaustion)')
     for p in ['(?&nope)', 'a(?&b)']:
         add(enum([], ['#[regex(%s)] A,' % rust_str(p)]), 'reject', 'undef_subpattern')
+    # diagnostics that quote long user text with characters of every UTF-8 width, at every alignment (0-3 ASCII bytes of
+    # padding in front): the pattern, a subpattern name, an unknown item or argument; whatever is done to the text of a
+    # message (clipping, wrapping, escaping) must not fall between the bytes of a character
+    for pad in range(4):
+        for wide in ('語', 'é', '😀'):
+            long_ = 'x' * pad + wide * 400
+            add(enum([], ['#[regex(%s)] A,' % rust_str('(%s)*' % long_)]), 'reject', None, 'long diagnostic: pattern that can match the empty string')
+            add(enum([], ['#[regex(%s)] A,' % rust_str('(' + long_)]), 'reject', None, 'long diagnostic: regex syntax error')
+            add(enum([], ['#[regex(%s)] A,' % rust_str('a(?&%s)' % long_)]), 'reject', None, 'long diagnostic: undefined subpattern')
+            add(enum([], ['#[regex(%s)] A,' % rust_str(long_ + '.*')]), 'reject', None, 'long diagnostic: greedy dot')
+            if wide != '😀':
+                add(enum(['#[logos(%s)]' % long_], ['#[token("a")] A,']), 'reject', None, 'long diagnostic: unknown item')
+                add(enum([], ['#[token("a", %s = 3)] A,' % long_]), 'reject', None, 'long diagnostic: unknown argument')
+                add(enum(['#[logos(subpattern %s = "a", subpattern %s = "b")]' % (long_, long_)], ['#[regex("(?&%s)c")] A,' % long_]), 'any', None, 'long diagnostic: subpattern defined twice')
+            add(enum([], ['#[token(%s)] A,' % rust_str(long_), '#[token(%s)] B,' % rust_str(long_)]), 'reject', None, 'long diagnostic: two tokens with the same text')
     # byte-string literals around the ASCII / non-ASCII border, through every path that turns the literal into regex text
     # (case-insensitive token, regex, skip, subpattern): accepted, no panic
     for bv in (0x00, 0x7f, 0x80, 0x81, 0xbf, 0xc2, 0xff):
